@@ -1,0 +1,52 @@
+//go:build verif
+// +build verif
+
+package electreIII
+
+// Contracts for gocv (comment-only; compiled out unless the tag "verif" is set, and empty then).
+
+// This listener's definitions of the abstract predicates of model.BiasListener
+//@ pred elValid(l model.BiasListener, p model.MethodParameters) = typeis(p, electreIIIParams) && p.(electreIIIParams).Criteria != nil
+//@ pred elCovers(l model.BiasListener, p model.MethodParameters, id string) = typeis(p, electreIIIParams) && p.(electreIIIParams).Criteria != nil && id in *p.(electreIIIParams).Criteria
+//@ pred elAcceptsAny(l model.BiasListener, x model.MethodParameters) = typeis(x, electreIIIParams) && x.(electreIIIParams).Criteria != nil
+//@ pred elAccepts(l model.BiasListener, x model.MethodParameters, id string) = typeis(x, electreIIIParams) && x.(electreIIIParams).Criteria != nil && id in *x.(electreIIIParams).Criteria
+//@ spec elImportance(l model.BiasListener, p *model.DecisionMakingParams, id string) real = (*p.MethodParameters.(electreIIIParams).Criteria)[id].K
+
+//@ func (*ElectreIIIBiasLIstener).OnCriteriaRemoved
+//@   property C07 C15
+//@   nopanic
+//@   refines model.BiasListener.OnCriteriaRemoved with validParams=elValid, coversId=elCovers
+//@   ensures [restricted] forall k int :: 0 <= k && k < len(*leftCriteria) ==>
+//@             (*result.(electreIIIParams).Criteria)[(*leftCriteria)[k].Id] == (*params.(electreIIIParams).Criteria)[(*leftCriteria)[k].Id]
+//@   ensures [distillation_kept] result.(electreIIIParams).DistillationFun == params.(electreIIIParams).DistillationFun
+//@   loop 1 invariant [ctx] fresh(resCriteria) && resCriteria != nil
+//@   loop 1 invariant [kept] forall k int :: 0 <= k && k < iter ==> (*leftCriteria)[k].Id in resCriteria && resCriteria[(*leftCriteria)[k].Id] == (*params.(electreIIIParams).Criteria)[(*leftCriteria)[k].Id]
+
+//@ func (*ElectreIIIBiasLIstener).OnCriterionAdded
+//@   property C07 C18
+//@   nopanic
+//@   fnparam generator ensures 0.0 <= result && result < 1.0
+//@   refines model.BiasListener.OnCriterionAdded with validParams=elValid, coversId=elCovers, accepts=elAccepts, acceptsAny=elAcceptsAny
+//@   ensures [weight_is_fraction_of_reference] model.fractionOf((*result.(electreIIIParams).Criteria)[criterion.Id].K, (*params.(electreIIIParams).Criteria)[referenceCriterion.Id].K)
+//@   ensures [thresholds_of_reference] (*result.(electreIIIParams).Criteria)[criterion.Id].Q == (*params.(electreIIIParams).Criteria)[referenceCriterion.Id].Q
+//@             && (*result.(electreIIIParams).Criteria)[criterion.Id].P == (*params.(electreIIIParams).Criteria)[referenceCriterion.Id].P
+//@             && (*result.(electreIIIParams).Criteria)[criterion.Id].V == (*params.(electreIIIParams).Criteria)[referenceCriterion.Id].V
+
+//@ func (*ElectreIIIBiasLIstener).Merge
+//@   property C07 C18
+//@   refines model.BiasListener.Merge with validParams=elValid, coversId=elCovers, accepts=elAccepts, acceptsAny=elAcceptsAny
+//@   ensures [distillation_kept] result.(electreIIIParams).DistillationFun == params.(electreIIIParams).DistillationFun
+//@   ensures [values] forall q string :: (q in *params.(electreIIIParams).Criteria ==> (*result.(electreIIIParams).Criteria)[q] == (*params.(electreIIIParams).Criteria)[q])
+//@             && (q in *addition.(electreIIIParams).Criteria ==> (*result.(electreIIIParams).Criteria)[q] == (*addition.(electreIIIParams).Criteria)[q])
+//@   loop 1 invariant [copied] forall k string :: seen(k) ==> (k in newCriteria && newCriteria[k] == (*params.(electreIIIParams).Criteria)[k])
+//@   loop 1 invariant [only] forall k string :: k in newCriteria ==> seen(k)
+//@   loop 1 invariant [ctx] fresh(newCriteria) && newCriteria != nil
+//@   loop 2 invariant [first] forall k string :: k in *params.(electreIIIParams).Criteria ==> (k in newCriteria && newCriteria[k] == (*params.(electreIIIParams).Criteria)[k])
+//@   loop 2 invariant [second] forall k string :: seen(k) ==> (k in newCriteria && newCriteria[k] == (*addition.(electreIIIParams).Criteria)[k] && !(k in *params.(electreIIIParams).Criteria))
+//@   loop 2 invariant [ctx] fresh(newCriteria) && newCriteria != nil
+
+//@ func (*ElectreIIIBiasLIstener).RankCriteriaAscending
+//@   property C15 C07
+//@   refines model.BiasListener.RankCriteriaAscending with validParams=elValid, coversId=elCovers, imp=elImportance
+//@   loop 1 invariant [copied] forall k string :: seen(k) ==> (k in weights && weights[k] == (*params.MethodParameters.(electreIIIParams).Criteria)[k].K)
+//@   loop 1 invariant [ctx] fresh(weights) && weights != nil
